@@ -17,7 +17,7 @@ COLS = ["loads_min", "loads_max", "S_min", "S_max", "epsilon_min", "epsilon_max"
         "R", "epsilon_min_LF", "epsilon_max_LF"]
 FLAGS = ["is_closed_hysteresis", "is_zero_mean_stress_and_strain", "run_index"]
 REQUIRED_CLASSES = {t: ["law:neuber_binned", "law:seegerbeste_binned", "memory1", "memory2", "memory3",
-                        "depth>=4", "multi:2..6_points", "multi:dyadic", "multi:general_ratio", "negation"]
+                        "depth>=4", "multi:2..6_points", "multi:dyadic", "multi:general_ratio", "multi:load_ratio>100", "negation"]
                     for t in ("quick", "thorough")}
 REQUIRED_MONITORS = ["stream==reversals_of_repeated_sequence", "rows:count", "rows:flags", "rows:values", "strain_values",
                      "multi_point==single_point", "negation_mirrors"]
@@ -199,7 +199,12 @@ def run_case(case, ctx):
         u = rng.random()
         if u < 0.4:
             # powers of two scale loads and class edges without rounding: judged without any guard
-            factors = [1.0] + [float(2.0 ** int(rng.integers(-2, 3))) for _ in range(k - 1)]
+            wide = rng.random() < 0.35         # hardly loaded points beside a highly loaded one
+            factors = [1.0] + [float(2.0 ** int(rng.integers(-10, 4) if wide else rng.integers(-2, 3))) for _ in range(k - 1)]
+            if wide and rng.random() < 0.5:
+                factors = factors[::-1]
+            if max(factors) / min(factors) > 100:
+                ctx.tag("multi:load_ratio>100")
             ctx.tag("multi:dyadic")
         elif u < 0.6:
             # 0.75, 1.5, 3, 6 ...: v*f and the edges i/n*(max*f) round differently, a load on a class edge may flip
